@@ -13,6 +13,7 @@ accepted higher-order uses below is what the repository itself does.
 from __future__ import annotations
 
 import ast
+import os
 from typing import Dict, List, Optional, Set
 
 from .engine import FunctionInfo, Program
@@ -66,7 +67,7 @@ def _private_variables(p: Program) -> Dict[str, Set[str]]:
             # are ordinary objects the rules treat as such
             if tgt and tgt.startswith("_") and not tgt.startswith("__") and any(
                     isinstance(x, (ast.GeneratorExp, ast.ListComp, ast.DictComp, ast.SetComp)) or (isinstance(x, ast.BinOp) and any(isinstance(y, (ast.Tuple, ast.List)) for y in (x.left, x.right)))
-                    or (isinstance(x, ast.Call) and isinstance(x.func, ast.Name) and x.func.id == "zip") for x in ast.walk(val)):
+                    or (isinstance(x, ast.Call) and isinstance(x.func, ast.Name) and (x.func.id == "zip" or (x.func.id.startswith("_") and not x.func.id.startswith("__")))) for x in ast.walk(val)):
                 s.add(tgt)
         out[name] = s
     p._opaque_privvars = out
@@ -96,8 +97,18 @@ def baseline_new_nested(p: Program, fi: FunctionInfo) -> Set[str]:
     either an anchor the rules name or was inlined; what is left after a refactoring is code the rules have not looked into.)"""
     # only two-level nesting (a nested function that defines functions of its own) - the shape the inliner cannot dissolve; a plain closure
     # that stayed is readable for the rules (the grouping closures, a cache helper a change added)
-    return {n.name for n in ast.walk(fi.node) if isinstance(n, (ast.FunctionDef, ast.AsyncFunctionDef)) and n is not fi.node
-            and any(isinstance(m, (ast.FunctionDef, ast.AsyncFunctionDef)) and m is not n for m in ast.walk(n))}
+    two_level = {n.name for n in ast.walk(fi.node) if isinstance(n, (ast.FunctionDef, ast.AsyncFunctionDef)) and n is not fi.node
+                 and any(isinstance(m, (ast.FunctionDef, ast.AsyncFunctionDef)) and m is not n for m in ast.walk(n))}
+    if os.environ.get("SFA_NESTED_NEW"):
+        import json
+        try:
+            with open(os.path.join(os.path.dirname(os.path.abspath(__file__)), "nested_baseline.json")) as f:
+                base = set(json.load(f).get(fi.module.name, []))
+        except (OSError, ValueError):
+            base = None
+        if base is not None:
+            two_level |= {n.name for n in ast.walk(fi.node) if isinstance(n, (ast.FunctionDef, ast.AsyncFunctionDef)) and n is not fi.node and n.name not in base}
+    return two_level
 
 
 def residuals(p: Program, fi: FunctionInfo) -> List[str]:
